@@ -13,13 +13,16 @@ package fatigue
 
 //@ func (*ConstFatigueFunction).Evaluate
 //@   property C17 C09 C01 C07 C20
+//@   indexsafe
 //@   ensures [const] result == params.(*ConstFatigueParams).Value
 //@ func (*ExponentialFromZeroFatigue).Evaluate
 //@   property C17 C09 C01 C07 C20
+//@   indexsafe
 //@   ensures [exp] result == params.(*ExpFatigueParams).Multiplier * exp(params.(*ExpFatigueParams).Alpha * real(params.(*ExpFatigueParams).QueryNumber)) - params.(*ExpFatigueParams).Multiplier
 
 //@ func blurCriteriaValues
 //@   property C17 C07 C09 C01 C20
+//@   indexsafe
 //@   fnparam valueGenerator ensures 0.0 <= result && result < 1.0
 //@   fnparam signGenerator ensures 0.0 <= result && result < 1.0
 //@   requires forall i int, j int :: 0 <= i && i < j && j < len(criteria) ==> criteria[i].criterion.Id != criteria[j].criterion.Id
@@ -58,6 +61,7 @@ package fatigue
 
 //@ func matchCriteriaWithBoundings
 //@   property C17 C07 C09 C01 C20
+//@   indexsafe
 //@   ensures [criteria_in_order] fresh(result) && len(result) == len(dmp.Criteria) && forall k int :: 0 <= k && k < len(dmp.Criteria) ==> result[k].criterion == dmp.Criteria[k]
 //@   ensures [clipping_interval_from_declared_range] forall k int :: 0 <= k && k < len(dmp.Criteria) && dmp.Criteria[k].ValuesRange != nil ==> result[k].bounding != nil
 //@             && (result[k].bounding.valueRange != nil ==> clippedFrom(*result[k].bounding, old(*dmp.Criteria[k].ValuesRange)))
@@ -73,6 +77,7 @@ package fatigue
 
 //@ func prepareResult
 //@   property C17 C09 C07 C01 C20
+//@   indexsafe
 //@   ensures [state] fresh(result) && fresh(result.DMP) && result.DMP.ConsideredAlternatives == consideredAlts && result.DMP.NotConsideredAlternatives == notConsideredAlts
 //@   ensures [untouched] result.DMP.Criteria == current.Criteria && result.DMP.MethodParameters == current.MethodParameters
 //@   ensures [report] typeis(result.Props, FatigueResult) && result.Props.(FatigueResult).EffectiveFatigueRatio == fatigueRatio
@@ -87,6 +92,7 @@ package fatigue
 //@   returnhint [function_named_in_the_request_seed_of_the_request] fatName(fun) == parsedProps.Function
 //@             && valueGenerator == appfn(f.valueGeneratorSource, parsedProps.RandomSeed) && signGenerator == appfn(f.signGeneratorSource, parsedProps.RandomSeed)
 //@   property C17 C09 C07 C01 C20
+//@   indexsafe
 //@   requires forall i int, j int :: 0 <= i && i < j && j < len(current.Criteria) ==> current.Criteria[i].Id != current.Criteria[j].Id
 //@   ensures [untouched] result.DMP.Criteria == current.Criteria && result.DMP.MethodParameters == current.MethodParameters
 //@   ensures [report_is_state] typeis(result.Props, FatigueResult)
@@ -108,21 +114,25 @@ package fatigue
 //@   ensures fatMadeBy(result, self)
 //@ func parseFatigueFuncParams
 //@   property C17 C09 C07 C01 C20
+//@   indexsafe
 //@   ensures [the_functions_own_parameter_object] fatMadeBy(result, fun)
 
 // ---- no state shared between requests (C09): every request decodes its function parameters into a new object
 //@ func (*ConstFatigueFunction).BlankParams
 //@   property C09 C17 C01 C07 C20
+//@   indexsafe
 //@   nopanic
 //@   ensures [new_object_each_time] typeis(result, *ConstFatigueParams) && fresh(result.(*ConstFatigueParams))
 //@ func (*ExponentialFromZeroFatigue).BlankParams
 //@   property C09 C17 C01 C07 C20
+//@   indexsafe
 //@   nopanic
 //@   ensures [new_object_each_time] typeis(result, *ExpFatigueParams) && fresh(result.(*ExpFatigueParams))
 
 // the registered object holds exactly the collaborators it was built with, each in its own role
 //@ func NewFatigue
 //@   property C17 C09 C07
+//@   indexsafe
 //@   nopanic
 //@   ensures [wired_as_given] result != nil && fresh(result) && result.valueGeneratorSource == valueGeneratorSource && result.signGeneratorSource == signGeneratorSource && result.functions == functions
 
@@ -148,12 +158,14 @@ package fatigue
 // ---- registered names (what a request must say to select this object; what error messages list)
 //@ func (*ConstFatigueFunction).Name
 //@   property C17 C20 C01 C07 C09
+//@   indexsafe
 //@   nopanic
 //@   ensures [name] result == "const"
 
 // ---- registered names (what a request must say to select this object; what error messages list)
 //@ func (*Fatigue).Identifier
 //@   property C07 C09 C17 C20 C01 C03 C04 C05 C06 C08 C11 C12 C13 C14 C15 C16 C18 C19
+//@   indexsafe
 //@   nopanic
 //@   ensures [name] result == "fatigue"
 
@@ -163,10 +175,12 @@ package fatigue
 //@   ensures result == fatName(self)
 //@ func parseProps
 //@   property C17 C20 C07 C09 C01
+//@   indexsafe
 //@   ensures [as_requested] fresh(result) && result.Function == (decoded_has(*props, "Function") ? decoded_str(*props, "Function") : "")
 //@             && result.RandomSeed == (decoded_has(*props, "RandomSeed") ? decoded_int(*props, "RandomSeed") : 0)
 //@ func (*Fatigue).getFatigueFunction
 //@   property C17 C20 C07 C09 C01
+//@   indexsafe
 //@   panics_iff [unknown_function] !(exists k int :: 0 <= k && k < len(f.functions) && fatName(f.functions[k]) == params.Function)
 //@   ensures [first_with_that_name] exists k int :: 0 <= k && k < len(f.functions) && result == f.functions[k] && fatName(result) == params.Function
 //@             && forall j int :: 0 <= j && j < k ==> fatName(f.functions[j]) != params.Function
